@@ -925,6 +925,9 @@ func (e *Env) callExpr(ex *ast.CallExpr) (SVal, error) {
 				}
 				var alts []string
 				for j, a := range e.Events[i].Args {
+					if chanElemsDiffer(a.GoT, want.GoT) {
+						continue // channels of different element types are different channels
+					}
 					alts = append(alts, and(eq(e.Events[i].Res[0].T, intLit(int64(j))), e.X.valEq(e.St, a, want)))
 				}
 				if len(alts) == 0 {
@@ -1540,4 +1543,14 @@ func (e *Env) matchEvent(p ast.Expr, ev Event) (string, error) {
 		cs = append(cs, e.X.valEq(e.St, ev.Args[i], v))
 	}
 	return and(cs...), nil
+}
+
+// chanElemsDiffer: both types are channel types and their element types are not identical.
+func chanElemsDiffer(a, b types.Type) bool {
+	if a == nil || b == nil {
+		return false
+	}
+	ca, ok1 := a.Underlying().(*types.Chan)
+	cb, ok2 := b.Underlying().(*types.Chan)
+	return ok1 && ok2 && !types.Identical(ca.Elem(), cb.Elem())
 }
